@@ -10,7 +10,8 @@ BOUNDS = {"n": "symbolic over the whole range [0, 2^64) (forks over the 16 digit
           "string model": "<= 20 characters, 8-bit code points"}
 OUTSIDE = ["strings longer than 16 hex digits (values >= 2^64)", "non-ASCII digits accepted by int()",
            "f-string / %-formatting refactors (reported inconclusive, not modelled)"]
-STUBS = ["hex -> symx.strs.hex_model (sign, 0x, minimal lower-case digits)",
+STUBS = ["math.log/log2/floor/ceil -> symx.shims.IntMath (over-approximating float contract; witnesses are replayed with a boundary sweep)",
+         "hex -> symx.strs.hex_model (sign, 0x, minimal lower-case digits)",
          "int -> symx.strs.int_model (whitespace, sign, 0x prefix, either case, single underscores; ValueError otherwise)",
          "format -> symx.strs.format_model (x/X/b/o with fill/align/#/0/width)",
          "str methods on symbolic strings: slicing, lower/upper, strip family, zfill, startswith, removeprefix, replace"]
@@ -24,10 +25,16 @@ def _install(c):
     strs.install(c)
     import a5.core.hex as hx
     hx.hex = strs.hex_model
-    hx.int = strs.int_model
+    from symx import shims as _sh
+    hx.int = _sh.make_int_shim(strs.int_model)
     hx.format = strs.format_model
     hx.str = strs.str_model
     hx.bin = strs.bin_model
+    from symx import shims, floats as sf
+    hx.math = shims.INT_MATH
+    hx.range = shims.range_
+    if getattr(c, "float_mode", None) is None:
+        sf.install_float_mode(c, "fp")
     return hx
 
 
@@ -198,7 +205,8 @@ def replay(cx):
     if f == "h_roundtrip":
         return {"script": _PRE + """
 import re
-for n in (%d, %d):
+cands = [%d, %d] + [2**k - d for k in range(1, 65) for d in (1, 2, 3, 5, 11, 180, 2880, 46080) if 0 <= 2**k - d < 2**64] + [2**k for k in range(64)]
+for n in cands:
     try:
         s = u64_to_hex(n)
     except Exception as ex:
